@@ -212,7 +212,15 @@ pub fn find_module(
     let extension = "koto";
     let result = search_folder.join(module_name).with_extension(extension);
     if result.exists() {
-        Ok(result)
+        // The path is canonicalized so that a module is always cached under the same key,
+        // e.g. when it's reached via `..` from a neighbouring directory.
+        canonicalize(&result).map_err(|error| {
+            ModuleLoaderErrorKind::FailedToCanonicalizePath {
+                path: result,
+                error,
+            }
+            .into()
+        })
     } else {
         // Alternatively, check for a neighboring directory with a matching name,
         // that also contains a main file.
